@@ -51,6 +51,10 @@ REPO = os.environ.get("VERIF_REPO", "/repo")
 SPANS = os.path.join(VERIF, "tools", "spans", "target", "release", "spans")
 
 KEEP_DERIVES = ["Clone", "Copy", "PartialEq", "Eq", "Default"]
+try:
+    SHAPES = json.load(open(os.path.join(os.path.dirname(os.path.dirname(os.path.abspath(__file__))), "units", "shapes.json")))
+except Exception:
+    SHAPES = {}
 
 TRACING_MACROS = {
     "log_channel_event",   # macro_rules! in tcp/client.rs: expands to tracing::info! / tracing::debug! only
@@ -1018,6 +1022,17 @@ class Unit:
                            "closure": len(it.get("closures", []))}[kind]
                     if k >= lim:
                         raise AnchorLost(f"{where}: template refers to {kind} {k} but the function has only {lim}")
+                    # shape guard: ordinal hints are only placed when the function still has as many positions of that kind as it
+                    # had when the hints were written (units/shapes.json); otherwise a hint could land on a different exit / loop /
+                    # `?` and fail for a reason that has nothing to do with the property -> undecided instead
+                    if k >= 0:
+                        grp = {"loop": "loops", "loopstart": "loops", "loopend": "loops", "afterloop": "loops", "beforeloop": "loops",
+                               "timer": "timers", "async": "asyncs", "asyncend": "asyncs", "exit": "exits", "tryexit": "tries", "closure": "closures"}[kind]
+                        want = SHAPES.get(f"{relfile}::{path}", {}).get(grp)
+                        if want is not None and want != lim:
+                            raise AnchorLost(f"{where}: the function now has {lim} {grp} where the hints were written for {want}: ordinal hints cannot be placed reliably")
+                        self.shape_seen = getattr(self, "shape_seen", {})
+                        self.shape_seen.setdefault(f"{relfile}::{path}", {})[grp] = lim
 
         cedits = cfg_node_edits(src, it.get("cfg_nodes", []), lambda pos, note: self.log("R7", relfile, src, pos, note))
         edits = [x for x in edits if not any(c.s <= x.s and x.e <= c.e for c in cedits)] + cedits
@@ -1358,7 +1373,7 @@ class Unit:
         return text, {"unit": self.name, "line_starts": starts, "origins": origins, "rewrites": self.rewrites,
                       "functions": self.functions, "items": self.items, "trusted": self.trusted,
                       "bounded": self.bounded, "notdecided": self.notdecided, "sources": self.sources,
-                      "vac_ids": self.vac_ids, "vac_files": self.vac_files, "lemmas": self.lemmas, "lost": getattr(self, "lost", [])}
+                      "vac_ids": self.vac_ids, "vac_files": self.vac_files, "lemmas": self.lemmas, "lost": getattr(self, "lost", []), "shape_seen": getattr(self, "shape_seen", {})}
 
 
 def origin_of(meta, line):
